@@ -23,7 +23,8 @@ WALL_CAP = {"quick": 120, "thorough": 3000}
 RULE = ("one case = 1-3 generated show definitions (1-8 steps; relative '+x', absolute, `duration:` and default "
         "timing, odd durations 0.007/0.013/0.333/1.001, inserted empty first step, empty middle/last steps, hold "
         "step, tokens for event/light/colour, lights with and without fades, tags, coils) plus a generated history "
-        "of 3-16 play/stop/pause/resume/advance/step_back/update requests on three slots (direct API or the "
+        "of 3-16 play/stop/pause/resume/advance/step_back/update requests (plays with sync_ms left out, explicit 0 or "
+        "explicit non-zero, on machines with `mpf: default_show_sync_ms` 0/100/250/500) on three slots (direct API or the "
         "show_player), placed at relative offsets or exactly on / 1 ms around a pending step deadline, executed "
         "under a seeded scheduler (stalls, tie permutations); a case is non-trivial when it reached at least one "
         "reach probe; distinct = distinct sequence of observed event kinds")
@@ -32,7 +33,8 @@ PROBES = ["op_on_step_deadline", "op_mid_fade", "late_step_after_stall", "back_o
           "advance_wrap", "step_back_wrap", "sync_wait", "sync_boundary", "negative_start_step", "ticks_1000",
           "update_speed", "stop_in_sync_wait", "replace_by_key", "replace_in_sync", "token_light", "manual_advance",
           "hold_step", "request_after_end", "resume_not_paused", "silent_step", "first_step_offset",
-          "start_paused", "advance_while_paused", "coil_released", "default_fade_light"]
+          "start_paused", "advance_while_paused", "coil_released", "default_fade_light", "default_sync_nonzero",
+          "explicit_sync0_vs_default", "sync_from_default", "explicit_sync_vs_default"]
 REAL = ["mpf.assets.show.Show/RunningShow", "mpf.core.show_controller.ShowController",
         "mpf.config_players.show_player/light_player/coil_player/event_player", "mpf.core.config_player.ConfigPlayer",
         "mpf.devices.light.Light (stack, fades)", "mpf.devices.driver.Driver", "mpf.core.events.EventManager",
@@ -89,6 +91,14 @@ def _secs(v):
     if s.endswith("s"):
         return Fraction(s[:-1])
     return Fraction(s)
+
+
+def _sync_arg(op):
+    """sync_ms as passed by a play request (None: not given).  Plans recorded before the default-sync swarm
+    existed have no sync_arg: there a non-zero sync_ms was passed and 0 was left out."""
+    if "sync_arg" in op:
+        return op["sync_arg"]
+    return op["sync_ms"] or None
 
 
 def _is_rel(v):
@@ -266,6 +276,7 @@ def plan(ch, tier):
     nops = 3 + ch.choice("nops", 14)
     if fast:
         nops = 3 + ch.choice("nops_fast", 7)
+    default_sync = ch.weighted("default_sync", [(0, 5), (250, 1.5), (500, 1), (100, 0.5)])
     ops = []
     names = sorted(shows)
     paused = []           # plan-time guess of the paused slots (bias only; the run decides)
@@ -310,7 +321,10 @@ def plan(ch, tier):
                 if ss == 0:
                     ss = 1
             op["start_step"] = ss
-            op["sync_ms"] = ch.weighted("sync", [(0, 5), (100, 1), (250, 1), (500, 1), (1000, 0.5)])
+            # sync_arg: what the request passes (None = not given -> `mpf: default_show_sync_ms` applies, an explicit
+            # value - including 0 = "start at once" - wins); sync_ms: the resulting effective sync cycle
+            op["sync_arg"] = ch.weighted("sync", [(None, 4), (0, 3), (100, 1), (250, 1), (500, 1), (1000, 0.5)])
+            op["sync_ms"] = default_sync if op["sync_arg"] is None else op["sync_arg"]
             op["priority"] = ch.weighted("prio", [(0, 3), (1, 1), (3, 1), (7, 1), (10, 1)])
             op["manual_advance"] = ch.flag("manual", 0.07) and not (fast and j == 0)
             op["start_running"] = not ch.flag("start_paused", 0.08) or (fast and j == 0)
@@ -330,6 +344,7 @@ def plan(ch, tier):
         if ch.flag("base_" + ln, 0.4):
             base[ln] = [ch.pick("base_col", ["404040", "ff00ff", "101010"]), ch.pick("base_prio", [0, 5, 2])]
     return {"knobs": knobs, "shows": shows, "slot_via": slot_via, "ops": ops, "base": base, "fast": fast,
+            "default_sync": default_sync,
             "tail_wait": ch.pick("tail_wait", [0.0, 0.5, 2.0, 0.1])}
 
 
@@ -419,8 +434,8 @@ def execute(ctx, plan):     # noqa: C901  (one scenario, kept in one place on pu
             e = {"action": "play", "key": "k%d" % op["slot"], "speed": op["speed"], "loops": op["loops"],
                  "start_step": op["start_step"], "priority": op["priority"], "manual_advance": op["manual_advance"],
                  "start_running": op["start_running"], "show_tokens": tok}
-            if op["sync_ms"]:
-                e["sync_ms"] = op["sync_ms"]
+            if _sync_arg(op) is not None:
+                e["sync_ms"] = _sync_arg(op)
             for kd in KINDS:
                 e["events_when_" + kd] = "c17_%s_%s" % (tag, kd)
             sp["c17op_play_%d" % j] = {op["show"]: e}
@@ -436,7 +451,15 @@ def execute(ctx, plan):     # noqa: C901  (one scenario, kept in one place on pu
         # MPF validates show configs in place: hand it a private copy
         s.machine.mpf_config._show_config.update(copy.deepcopy(shows_cfg))    # pylint: disable=protected-access
 
-    sim = ctx.new_sim("c17", platform="simhw", patches={"show_player": sp} if sp else None, pre_boot=inject)
+    patches = {"show_player": sp} if sp else {}
+    if plan.get("default_sync"):
+        patches["mpf"] = {"default_show_sync_ms": plan["default_sync"]}
+        ctx.probe("default_sync_nonzero")
+        for op in ops:
+            if op["op"] == "play":
+                ctx.probe("explicit_sync0_vs_default" if _sync_arg(op) == 0 else
+                          "sync_from_default" if _sync_arg(op) is None else "explicit_sync_vs_default")
+    sim = ctx.new_sim("c17", platform="simhw", patches=patches or None, pre_boot=inject)
     sim.boot()
     m = sim.machine
     loop = sim.loop
@@ -1087,7 +1110,7 @@ def execute(ctx, plan):     # noqa: C901  (one scenario, kept in one place on pu
             ev = {"events_when_" + kd: ["c17_%s_%s" % (inst.tag, kd)] for kd in KINDS}
             rs = m.shows[op["show"]].play(priority=op["priority"], speed=float(op["speed"]),
                                           start_step=op["start_step"], loops=op["loops"],
-                                          sync_ms=op["sync_ms"] or None, manual_advance=op["manual_advance"],
+                                          sync_ms=_sync_arg(op), manual_advance=op["manual_advance"],
                                           show_tokens=tok, start_running=op["start_running"], **ev)
             inst.rs = rs
             if rs.context != inst.ctx_key:
